@@ -382,4 +382,4 @@ def main():
                min_eval=1000, min_distinct=50)
 
 import itertools
-main_guard(main)
+if __name__ == "__main__": main_guard(main)
